@@ -93,7 +93,12 @@ func checkC17(res *Result) {
 		cr := one("Database.Create")
 		hv := one("sideEffectActor.hasInboxForwardingValues")
 		ffw := one("FederatingProtocol.FilterForwarding")
-		dl := one("sideEffectActor.deliverToRecipients")
+		var dl *ssa.Call
+		if hs := handOverSites(E, fn); len(hs) == 1 {
+			dl, _ = hs[0].(*ssa.Call)
+		} else {
+			res.bad("C17-R1", fname(fn), p.pos(fn), "the activity is handed to the transport exactly once on the forwarding path", fmt.Sprintf("%d hand-over sites", len(hs)))
+		}
 		if ex != nil && cr != nil && hv != nil && ffw != nil && dl != nil {
 			exV, exE := extractOf(ex, 0), extractOf(ex, 1)
 			okEx := ff.has(dl, exV, fFALSE, "") && ff.has(dl, exE, fNIL, "")
@@ -159,8 +164,18 @@ func checkC17(res *Result) {
 			}
 			res.check(nLook >= 2, "C17-R5", fname(fn), p.pos(fn), "members are looked up for Collections and OrderedCollections", fmt.Sprintf("%d lookups", nLook))
 			// the recipients handed over derive from those lookups
-			res.check(anyBackward(g, dl.Call.Args[4], func(x ssa.Value) bool { _, ok := x.(*ssa.Lookup); return ok }), "C17-R5", fname(fn), p.pos(dl), "the recipients are the members of those collections", "recipients do not derive from the member maps")
-			res.check(isParamNamed(unwrap(dl.Call.Args[3]), "activity"), "C17-R6", fname(fn), p.pos(dl), "what is forwarded is the received activity", "different value")
+			recArg, actOK := ssa.Value(nil), false
+			if len(dl.Call.Args) >= 5 {
+				// deliverToRecipients(c, boxIRI, activity, recipients)
+				recArg = dl.Call.Args[4]
+				actOK = isParamNamed(unwrap(dl.Call.Args[3]), "activity")
+			} else if len(dl.Call.Args) >= 3 {
+				// the helper written out: BatchDeliver(c, payload, recipients)
+				recArg = dl.Call.Args[2]
+				actOK = anyBackward(g, dl.Call.Args[1], func(x ssa.Value) bool { return isParamNamed(x, "activity") }) && anyBackward(g, dl.Call.Args[1], func(x ssa.Value) bool { return isCallNamed(x, "streams.Serialize") })
+			}
+			res.check(recArg != nil && anyBackward(g, recArg, func(x ssa.Value) bool { _, ok := x.(*ssa.Lookup); return ok }), "C17-R5", fname(fn), p.pos(dl), "the recipients are the members of those collections", "recipients do not derive from the member maps")
+			res.check(actOK, "C17-R6", fname(fn), p.pos(dl), "what is forwarded is the received activity", "different value")
 			// FilterForwarding gets the owned collections and the activity
 			res.check(isParamNamed(unwrap(ffw.Call.Args[2]), "activity"), "C17-R5", fname(fn), p.pos(ffw), "the filter is asked about the received activity", "different value")
 		}
@@ -375,7 +390,7 @@ func checkC17(res *Result) {
 	}
 
 	// R6
-	r6names := []string{"sideEffectActor.InboxForwarding", "sideEffectActor.hasInboxForwardingValues", "getInboxForwardingValues", "sideEffectActor.deliverToRecipients"}
+	r6names := append([]string{"sideEffectActor.InboxForwarding", "sideEffectActor.hasInboxForwardingValues", "getInboxForwardingValues"}, optionalFuncs(p, []string{"sideEffectActor.deliverToRecipients"})...)
 	for _, n := range reachFrom(p, E, "sideEffectActor.InboxForwarding") {
 		dup := false
 		for _, m := range r6names {
@@ -410,13 +425,17 @@ func checkC17(res *Result) {
 			res.ok("C17-R6", name, p.pos(f), "no ActivityStreams value is modified on the forwarding path")
 		}
 	}
-	if f := p.Func("sideEffectActor.deliverToRecipients"); f != nil {
+	for _, cname := range []string{"sideEffectActor.deliverToRecipients", "sideEffectActor.InboxForwarding"} {
+		f := p.Func(cname)
+		if f == nil || !p.HasFunc(cname) {
+			continue
+		}
 		for _, c := range findCalls(E, f, "streams.Serialize") {
 			res.check(isParamNamed(unwrap(c.Common().Args[0]), "activity"), "C17-R6", fname(f), p.pos(c), "the payload is the serialisation of the activity as received", "argument is "+valueLabel(c.Common().Args[0]))
 		}
 	}
 	// R7
-	addErrFlowObligations(res, p, E, "C17-R7", []string{"sideEffectActor.InboxForwarding", "sideEffectActor.hasInboxForwardingValues", "sideEffectActor.deliverToRecipients"}, true)
+	addErrFlowObligations(res, p, E, "C17-R7", append([]string{"sideEffectActor.InboxForwarding", "sideEffectActor.hasInboxForwardingValues"}, optionalFuncs(p, []string{"sideEffectActor.deliverToRecipients"})...), true)
 	res.Assumptions = append(res.Assumptions, "value flow is an over-approximation", "CFG paths over-approximate feasible paths")
 	res.Undecided = []string{"the 'iff' at value level (which concrete ids are owned at which chain level)", "that the forwarded bytes equal the received bytes (C01)"}
 	res.Trusted = []string{"go/types, go/ssa (x/tools v0.29.0)", "e1_effects.go, e2_facts.go, e4_flow.go, e9_errflow.go"}
